@@ -73,7 +73,7 @@ static const char *op_name(int code)
 }
 
 enum { CFG_TOPO = 0, CFG_NPIPES, CFG_TYPES /* 4 slots */, CFG_UREF_POOL = 6, CFG_UDICT_POOL,
-       CFG_UBUF_POOL, CFG_QLEN, CFG_FAULTS, CFG_TEARDOWN, CFG_PROP, CFG_NSUBS, CFG_NOLOOP };
+       CFG_UBUF_POOL, CFG_QLEN, CFG_FAULTS, CFG_TEARDOWN, CFG_PROP, CFG_NSUBS, CFG_NOLOOP, CFG_REACT };
 enum { TOPO_CHAIN = 0, TOPO_DUP, TOPO_QUEUE };
 enum { P_C04 = 4, P_C05 = 5, P_C01 = 1, P_C20 = 20, P_C12 = 12 };
 
@@ -103,6 +103,7 @@ static int prop;
 bool stop_checking;      /* a fault fired inside a control command */
 static bool fault_in_op;        /* a fault fired during the current operation */
 static bool skip_getters;
+static int react_mode;            /* what probes do when a pipe signals the end of its source */
 static bool noloop;             /* queue topology without any event loop */       /* second pass of the C20 differential */
 static uint64_t obs_hash;       /* hash of everything the sinks and probes saw */
 
@@ -196,6 +197,7 @@ struct msink {
     struct urequest *lodged[16]; int nlodged;
     int req_registers, req_unregisters;
     bool app_released;          /* the application let go of its own reference */
+    bool answer_on_register;    /* provider that answers from inside register_request */
 };
 struct msink sinks[MAXS];
 int nsinks;
@@ -249,6 +251,7 @@ static int node_of_upipe(struct upipe *u)
 }
 
 void req_probe_provide(struct tprobe *p, struct upipe *upipe, struct urequest *urequest);
+static void req_sink_sync_answer(int sink, struct urequest *proxy);
 
 static int tprobe_catch(struct uprobe *uprobe, struct upipe *upipe, int event, va_list args)
 {
@@ -317,6 +320,19 @@ static int tprobe_catch(struct uprobe *uprobe, struct upipe *upipe, int event, v
         req_probe_provide(p, upipe, urequest);
         return UBASE_ERR_NONE;
     }
+    case UPROBE_SOURCE_END:
+        /* an application that reacts to the end of a source by letting go of
+         * another pipe it holds */
+        if (react_mode && p->id < 100) {
+            int other = react_mode == 1 ? p->id + 1 : p->id - 1;
+            if (other > 0 && other < MAXP && pipes[other].exists && pipes[other].upipe != NULL) {
+                struct upipe *u = pipes[other].upipe;
+                pipes[other].upipe = NULL;
+                SIM_PROBE("pipe_released_from_event_handler");
+                upipe_release(u);
+            }
+        }
+        return UBASE_ERR_NONE;
     default:
         break;
     }
@@ -470,6 +486,8 @@ static int sink_control(struct upipe *upipe, int command, va_list args)
             s->lodged[s->nlodged++] = r;
         s->req_registers++;
         SIM_PROBE("pipe_request_lodged_at_sink");
+        if (s->answer_on_register)
+            req_sink_sync_answer(s->id, r);
         return UBASE_ERR_NONE;
     }
     case UPIPE_UNREGISTER_REQUEST: {
@@ -839,12 +857,14 @@ static struct upipe *alloc_pipe(int slot, int type, int super_or_qsrc, unsigned 
 static void connect(int i, int node)
 {
     struct rpipe *p = &pipes[i];
-    int ret = upipe_set_output(p->upipe, node_upipe(node));
-    if (!ubase_check(ret))
-        sim_violation(V_CONTROL, "set_output on %s failed (%d)", type_name(p->type), ret);
+    /* the model first: providers may answer from inside set_output and the
+     * requester may send data from its callback */
     p->out = node;
     if (p->type != T_QSINK)
         p->state = ST_NONE;
+    int ret = upipe_set_output(p->upipe, node_upipe(node));
+    if (!ubase_check(ret))
+        sim_violation(V_CONTROL, "set_output on %s failed (%d)", type_name(p->type), ret);
 }
 
 /* ------------------------------------------------------------- operations */
@@ -944,6 +964,7 @@ static void queue_sync(void)
     compare_all(true);
 }
 
+static int req_actions_left;
 static void do_getter(int i, int which);
 static void do_option(int i, const struct sim_op *op);
 void req_do_op(const struct sim_op *op);
@@ -956,6 +977,7 @@ static void do_op(const struct sim_op *op)
     unsigned failed0 = sim_alloc_failed();
     fault_in_op = false;
     bool control_op = false;
+    req_actions_left = 2;
     if (topo == TOPO_QUEUE && op->code != OP_INPUT && op->code != OP_RUN && op->code != OP_SET_FLOW_DEF) {
         /* the reference model of the queue does not predict when the
          * consumer side runs: bring both sides to the same point before
@@ -1029,6 +1051,7 @@ static void do_op(const struct sim_op *op)
             if (j < 0) { target = pipes[i].orig_out; break; }
             sinks[j].mode = sinks[j].m_mode = (int)((uint64_t)op->a[2] % 3);
             sinks[j].reject_left = sinks[j].m_reject_left = 1 + (int)((uint64_t)op->a[3] % 2);
+            sinks[j].answer_on_register = ((uint64_t)op->a[3] >> 1) & 1;
             target = 100 + j;
             SIM_PROBE("pipe_output_replaced_by_new_sink");
         }
@@ -1323,6 +1346,7 @@ static void build_topology(const struct sim_plan *plan)
 {
     topo = (int)((uint64_t)plan->cfg[CFG_TOPO] % 3);
     noloop = topo == TOPO_QUEUE && ((uint64_t)plan->cfg[CFG_NOLOOP] & 1);
+    react_mode = (int)((uint64_t)plan->cfg[CFG_REACT] % 3);
     if (topo == TOPO_CHAIN) {
         npipes = 1 + (int)((uint64_t)(plan->cfg[CFG_NPIPES] - 1) % 4);
         for (int i = 0; i < npipes; i++)
@@ -1483,6 +1507,7 @@ static void gen_common(struct sim_rng *r, struct sim_plan *p, int which)
     p->cfg[CFG_TEARDOWN] = sim_rng_below(r, 4);
     p->cfg[CFG_NSUBS] = sim_rng_below(r, 3);
     p->cfg[CFG_NOLOOP] = sim_rng_chance(r, 1, 4);
+    p->cfg[CFG_REACT] = sim_rng_chance(r, 1, 3) ? 1 + sim_rng_below(r, 2) : 0;
     bool faults = which != P_C20 && which != P_C12 && sim_rng_chance(r, which == P_C01 ? 2 : 1, 3);
     p->cfg[CFG_FAULTS] = faults;
     int n = 5 + (int)sim_rng_below(r, 36);
@@ -1502,14 +1527,23 @@ static void gen_common(struct sim_rng *r, struct sim_plan *p, int which)
             else if (c < 73) sim_plan_add(p, 0, OP_FLUSH, 0, sim_rng_below(r, 24), sim_rng_below(r, 6), 0, 0, 0);
             else if (c < 79) sim_plan_add(p, 0, OP_OPTION, pp, sim_rng_below(r, 7), 0, 0, 0, 0);
             else if (c < (which == P_C20 ? 92 : 84)) sim_plan_add(p, 0, OP_GETTER, pp, sim_rng_below(r, 4), 0, 0, 0, 0);
-            else if (c < 93) sim_plan_add(p, 0, OP_SET_OUTPUT, pp, sim_rng_below(r, 4), sim_rng_below(r, 3), sim_rng_below(r, 2), 0, 0);
+            else if (c < 93) sim_plan_add(p, 0, OP_SET_OUTPUT, pp, sim_rng_below(r, 4), sim_rng_below(r, 3), sim_rng_below(r, 4), 0, 0);
             else if (c < 98) sim_plan_add(p, 0, OP_SINK_MODE, sim_rng_below(r, MAXS), sim_rng_below(r, 3), sim_rng_below(r, 2), 0, 0, 0);
             else sim_plan_add(p, 0, OP_RELEASE, pp, 0, 0, 0, 0, 0);
             continue;
         }
+        if (which != P_C20 && sim_rng_chance(r, 1, 12)) {
+            /* the data plane with requests registered, answered from inside
+             * register / set_output, and requesters that send from their callback */
+            uint32_t q = sim_rng_below(r, 4);
+            if (q < 2) sim_plan_add(p, 0, OP_REQ_REGISTER, sim_rng_below(r, 4), sim_rng_below(r, 2), sim_rng_below(r, 2), sim_rng_below(r, 3), 0, 0);
+            else if (q < 3) sim_plan_add(p, 0, OP_REQ_UNREGISTER, sim_rng_below(r, 4), 0, 0, 0, 0, 0);
+            else sim_plan_add(p, 0, OP_REQ_PROVIDE, sim_rng_below(r, MAXS), sim_rng_below(r, 8), sim_rng_below(r, 1000), 0, 0, 0);
+            continue;
+        }
         if (c < 38) sim_plan_add(p, 0, OP_INPUT, sim_rng_below(r, 4), sim_rng_below(r, 10), sim_rng_below(r, 64), sim_rng_below(r, 2), 0, f);
         else if (c < 46) sim_plan_add(p, 0, OP_SET_FLOW_DEF, sim_rng_below(r, 12) == 0 ? 2 : sim_rng_below(r, 2), sim_rng_below(r, 3), 0, 0, 0, f);
-        else if (c < 56) sim_plan_add(p, 0, OP_SET_OUTPUT, pp, sim_rng_below(r, 4), sim_rng_below(r, 3), sim_rng_below(r, 2), 0, 0);
+        else if (c < 56) sim_plan_add(p, 0, OP_SET_OUTPUT, pp, sim_rng_below(r, 4), sim_rng_below(r, 3), sim_rng_below(r, 4), 0, 0);
         else if (c < 63) sim_plan_add(p, 0, OP_SINK_MODE, sim_rng_below(r, MAXS), sim_rng_below(r, 3), sim_rng_below(r, 2), 0, 0, 0);
         else if (c < 74) sim_plan_add(p, 0, OP_OPTION, pp, sim_rng_below(r, 7), sim_rng_below(r, 50), 0, 0, f);
         else if (c < (which == P_C20 ? 92 : 78)) sim_plan_add(p, 0, OP_GETTER, pp, sim_rng_below(r, 4), 0, 0, 0, 0);
